@@ -76,3 +76,22 @@ Theorem C08_qrU_refines (K : fieldType) (n : nat) (A : seq (mx K)) (Q0 R0 Rinv :
   [seq mo2 n p | p <- qrU n A Q0 R0 Rinv] = qrM [seq mx_of n n a | a <- A] (mx_of n n Q0) (mx_of n n R0) (mx_of n n Rinv).
 Proof. exact: qrU_refines. Qed.
 Print Assumptions C08_qrU_refines.
+
+(* ---- reduced QR of a TALL matrix polynomial (m x n, Q m x n, R n x n; _qr_rectangular with M > N): Q R = A, Q^T Q = I modulo t^D,
+   every R_d upper triangular, for every m, n, D over every field with 2 != 0; the executable list-matrix kernel refines it *)
+From AlgoV Require Import QRTall QRTallSpec.
+Theorem C08_qrtM_spec (K : fieldType) (m n : nat) : (2%:R : K) != 0 ->
+  forall (A : seq 'M[K]_(m, n)) (Q0 : 'M[K]_(m, n)) (R0 Rinv : 'M[K]_n),
+  Q0^T *m Q0 = 1%:M -> is_upper R0 -> Q0 *m R0 = A`_0 -> R0 *m Rinv = 1%:M ->
+  let QR := qrtM A Q0 R0 Rinv in
+  forall d, (d < size A)%N ->
+  \sum_(c < d.+1) (nth (0, 0) QR c).1 *m (nth (0, 0) QR (d - c)).2 = A`_d /\
+  \sum_(c < d.+1) ((nth (0, 0) QR c).1)^T *m (nth (0, 0) QR (d - c)).1 = (d == 0%N)%:R%:M /\
+  is_upper (nth (0, 0) QR d).2.
+Proof. move=> c2 A Q0 R0 Rinv; exact: (qrtM_spec c2). Qed.
+Print Assumptions C08_qrtM_spec.
+Theorem C08_qrtU_refines (K : fieldType) (m n : nat) (A : seq (mx K)) (Q0 R0 Rinv : mx K) :
+  [seq moq m n p | p <- qrtU m n A Q0 R0 Rinv]
+  = qrtM [seq mx_of m n a | a <- A] (mx_of m n Q0) (mx_of n n R0) (mx_of n n Rinv).
+Proof. exact: qrtU_refines. Qed.
+Print Assumptions C08_qrtU_refines.
